@@ -4,9 +4,22 @@ CFG = {
         'bmtree.Decode': 'bmtree.Decode',
         'bmtree.AllPaths/held': 'bmtree.AllPaths twice, both results read after the second call',
         'bmtree.Decode/held': 'bmtree.Decode twice, both results read after the second call',
+        'bmtree.AllPaths/split': 'bmtree.AllPaths on [a,b), [b,c) and [a,c)',
+        'bmtree.AllPaths/index': 'bmtree.PathToIndex of every word of bmtree.AllPaths(T, from, to)',
+        'bmtree.Decode/reencode': 'bmtree.Decode, bmtree.PathToIndex of the result, bitmap.Of of the indices',
+        'bmtree.Decode/debug': 'bmtree.Decode (-tags debug build, PathToIndex contracts active)',
+        'bmtree.AllPaths/index/debug': 'bmtree.PathToIndex of every word of bmtree.AllPaths (-tags debug build)',
+        'bmtree.Decode/reencode/debug': 'Decode, PathToIndex, bitmap.Of (-tags debug build)',
+        'bmtree.Decode/roundtrip/debug': 'Decode(T, Of(PathToIndex ...)) (-tags debug build)',
+        'bmtree.AllPaths/subtree': 'bmtree.AllPaths(T, NewPath(q), NewPath(right-most leaf below q) + 1)',
+        'bmtree.PathsOf/decode': 'bmtree.PathsOf(keys, dedup) -> PathToIndex -> bitmap.Of -> bmtree.Decode',
+        'bmtree.PathsOf/decode/debug': 'the same in the -tags debug build',
         'bmtree.Decode/roundtrip': 'bmtree.Decode(T, bitmap.Of(bmtree.PathToIndex of each node of a sub-list of the stored nodes))'},
- 'rule': 'held variants first (two calls, then both results are read; heights 0..9 ascending). AllPaths: every level mask T < 2^5 (thorough 2^6) x every (from,to) drawn from {every stored path word, +1, -1, 0, 2^64-1} '
-         '(quick: T in [2^5,2^6) with every candidate as from / as to / as both plus 6 random partners); random heights 0..30 '
+ # two harness builds; the operations that reach PathToIndex (Decode, Decode/roundtrip, Decode/reencode, AllPaths/index) also run in
+ # the -tags debug build (github.com/openacid/must active): a contract panic is observed as P and rejected by the specification
+ 'runs': [{'tags': 'verif'}, {'tags': 'verif debug'}],
+ 'rule': 'held variants first (two calls, then both results are read; heights 0..9 ascending). AllPaths: every level mask T < 2^4 (thorough 2^6) x every (from,to) drawn from {every stored path word, +1, -1, 0, 2^64-1} '
+         '(quick: T in [2^4,2^6) with every candidate as from / as to / as both plus 4 random partners); random heights 0..30 '
          '(30 forced in 1/8) with full / leaf-only / sparse / dense / full-minus-one / leaf-plus-one / random masks and windows of at '
          'most 2^12 search values placed at 0, at the end, around search values with many trailing zeros, at 2^k and 2^k-1; from/to = '
          'a real word of the search value, +1, -1, bare search value, junk mask; from > to, to beyond the tree, from beyond the tree; '
@@ -14,15 +27,19 @@ CFG = {
          '3 words, nil/empty slice); random heights <= 10 (thorough 12) with ceil(T/64)-1, +0, +1, +2 words, all-ones / all-zero / '
          'pattern words, bits forced at T-1, T, T+1 and at the last bit; a few heights 13/14 with sparse bitmaps (bits in the last words). Decode/roundtrip: every T <= 10 (14) x every subset of the '
          'stored nodes; random subsets (all, 1/8, 1/2, first+last, leaves only). '
-         'Non-trivial: AllPaths returns something and the window clips (from > 0 or a stored word >= to); Decode / roundtrip selects '
+         'Widening ops on a share of the same inputs: AllPaths/split (window cut at its middle or at / next to a word inside it), AllPaths/index (heights <= 11), Decode/reencode; PathsOf/decode: 0..20 sorted keys sharing their first from in {0,3,8,13,16,21} bits, heights 1..14, a key reaches the leaf level (with a random tail, repeated leaf values) or ends exactly on a stored level; non-trivial = at least two distinct paths. AllPaths/subtree: every T < 2^5 x every node, random heights 0..30 with nodes 0..12 levels above the leaves (non-trivial: an inner node). Non-trivial: AllPaths returns something and the window clips (from > 0 or a stored word >= to); Decode / roundtrip selects '
          'some but not all stored nodes; distinct = distinct shape key (op, mask kind, height bucket, class of from and of to '
          '(0 / max / word / word+1 / word-1 / off / beyond), bitmap length short/exact/long, bits beyond T, size bucket)',
  'assumptions': ['1 <= bitmapSize < 2^31 (int32, height <= 30)', '0 <= from, to < 2^64',
                  'the correspondence only runs windows of <= 2^13 search values and Decode on heights <= 14 (the output is 2^h words otherwise); both sides refuse anything larger',
-                 'Decode/roundtrip: S is a sub-list of the stored nodes in pre-order'],
- 'trusted': ['checker for AllPaths on heights > 10: the pruned enumeration win_nodes (Spec/AllPathsSpec.v); '
-             'on heights <= 10 and for Decode the plain filter of the enumerated pre-order'],
+                 'Decode/roundtrip: S is a sub-list of the stored nodes in pre-order',
+                 'PathsOf/decode: keys in Go string order sharing their first from bits, every path length a stored level of T'],
+ 'trusted': ['checker for AllPaths on heights > 10 is the pruned enumeration win_nodes (Spec/AllPathsSpec.v); it is PROVED equal to the '
+             'plain filter of the enumerated pre-order (Properties/C04.v: C04_checker), so nothing is trusted here beyond the common base',
+             'the AllPaths/index and Decode/reencode checkers evaluate the right-hand sides of C04_index_run / C04_decode_reencode'],
  'explanation': 'Theorems over the model (AllPaths with its outer loop over search values, trailing-zero level walk, from-skip and '
                 'to-early-exit; Decode with the len(bm) guard): AllPaths = the path words of the stored nodes in pre-order filtered '
-                'by from <= w < to; Decode = the stored words whose pre-order position is a 1-bit of the bitmap; round trip.',
+                'by from <= w < to (exact membership, strictly ascending); Decode = the stored words whose PathToIndex bit / pre-order position is a '
+                '1-bit of the bitmap, bits >= T ignored; round trip for every sub-list of the stored nodes (uses C03 and C12); widening: adjacent '
+                'windows concatenate, indices of a window are consecutive, decode-then-re-encode keeps exactly the bits below T.',
 }
